@@ -208,7 +208,7 @@ func (r *Run) ReportKnown() {
 	known := KnownFor(r.ID)
 	for id, n := range r.Known {
 		if n > 0 {
-			fmt.Printf("KNOWN-FINDING: property=%s %s (%d case(s) this run)\n", r.ID, known[id], n)
+			fmt.Printf("KNOWN-FINDING: %s (%d case(s) this run)\n", known[id], n)
 		}
 	}
 }
